@@ -349,7 +349,8 @@ def run_property(spec, tier: str, only: str | None = None, jobs: int = 16):
         "seed": seed,
         "level": "other",
         "coverage": {
-            "explanation": "bounded symbolic verification (SMT): each obligation is the real cogent3 code executed on solver "
+            "explanation": ("ALL obligations of this property are of the realised-input grade (see 'grades'): solver-driven bounded-exhaustive runs, not a symbolic for-all. " if all(o.grade == "realised-input" for o in obs) else "")
+            + "bounded symbolic verification (SMT): each obligation is the real cogent3 code executed on solver "
             "variables; 'discharged' = solver exhausted all paths / unsat inside the listed bounds AND its vacuity twin was "
             "refuted; counterexamples are replayed on the unpatched public API before being reported. "
             + getattr(spec, "CLAIM", ""),
